@@ -1,13 +1,53 @@
 import PyPhysim.Model.Proto
 import PyPhysim.Model.Gray
 import PyPhysim.Generated.Conversion
+import PyPhysim.Model.C15Robust
 open PyPhysim.Proto PyPhysim.Gray PyPhysim.Generated
+open PyPhysim.C15R (Op Out Psk)
 
 def showE : Except PyErr Nat → String
   | .ok n => toString n
   | .error e => "error:" ++ toString e
 
+/-- `R i n v1 … vn` refill | `B i` | `G i` | `C i` | `X i j` | `E i j` -/
+partial def parseOps : List String → Option (List Op)
+  | [] => some []
+  | "R" :: i :: n :: rest => do
+      let i ← i.toNat?
+      let n ← n.toNat?
+      if rest.length < n then none else
+      let xs ← (rest.take n).mapM String.toNat?
+      let ops ← parseOps (rest.drop n)
+      pure (Op.refill i xs :: ops)
+  | "B" :: i :: rest => do pure (Op.b2g (← i.toNat?) :: (← parseOps rest))
+  | "G" :: i :: rest => do pure (Op.g2b (← i.toNat?) :: (← parseOps rest))
+  | "C" :: i :: rest => do pure (Op.cbits (← i.toNat?) :: (← parseOps rest))
+  | "X" :: i :: j :: rest => do pure (Op.xor (← i.toNat?) (← j.toNat?) :: (← parseOps rest))
+  | "E" :: i :: j :: rest => do pure (Op.biterr (← i.toNat?) (← j.toNat?) :: (← parseOps rest))
+  | _ => none
+
+def showNats (xs : List Nat) : String := if xs.isEmpty then "[]" else showList toString xs
+
+def showOut : Out → String
+  | .none => "-"
+  | .arr xs => showNats xs
+  | .num n => "=" ++ toString n
+  | .err e => "error:" ++ toString e
+
 def handle : List String → String
+  | "hist" :: nbuf :: toks =>     -- R16: buffers refilled in place between calls
+      match nbuf.toNat?, parseOps toks with
+      | some nb, some ops =>
+          let r := PyPhysim.C15R.run PyPhysim.C15R.emptyHeap ops
+          showList showOut r.2 ";" ++ " | " ++ showList (fun i => showNats (r.1 i)) (List.range nb) ";"
+      | _, _ => "bad-op"
+  | "pskhist" :: m :: phi0 :: rest =>   -- R15/R16: PSK(M, φ0) followed by setPhaseOffset calls
+      match m.toNat?, parseFloat? phi0, rest.mapM parseFloat? with
+      | some m, some p0, some ps =>
+          let s := (Psk.init m p0).run ps
+          (if s.grayOrder then "gray " else "natural ") ++ showFloat s.offset ++ " "
+            ++ showList toString ((List.range s.M).map s.pos)
+      | _, _, _ => "bad-op"
   | ["b2g", n] => match n.toNat? with | some n => toString (binary2gray n) | none => "bad-op"
   | ["g2b", n] => match n.toNat? with | some n => toString (gray2binary n) | none => "bad-op"
   | ["xor", a, b] => match a.toNat?, b.toNat? with
